@@ -3,7 +3,9 @@
    model functions names of their own (several models define an [is_session]). *)
 From Coq Require Import Extraction ExtrOcamlBasic ZArith NArith.
 From M Require Import base.ExtractBase gen.Consts base.MiniGo gen.Translated base.Bits64 model.Sizes.
-From M Require model.LowEntropy model.Wire.
+From M Require model.LowEntropy model.Wire model.KeyTime.
+From Coq Require Import List.
+Import ListNotations.
 Extraction Language OCaml.
 
 Definition m_pdep_go := pdep_go.
@@ -25,6 +27,22 @@ Definition m_wire_is_data := Wire.is_data.
 Definition m_wire_is_ack := Wire.is_ack.
 Definition m_wire_is_data_ack := Wire.is_data_ack.
 Definition m_wire_is_low_entropy := Wire.is_low_entropy.
+Definition m_mid3 := KeyTime.mid3.
+Definition m_within_range32 := KeyTime.within_range32.
+(* uint32(now / 60): proofs/TranslatedMetadataProofs.stamp *)
+Definition m_stamp (now : Z) : Z := KeyTime.u32 (Z.quot now 60).
+Definition m_marshal_session (p ts sid seq st pl sl : N) : list N :=
+  Wire.marshal_session {| Wire.s_proto := p; Wire.s_ts := ts; Wire.s_sid := sid; Wire.s_seq := seq; Wire.s_status := st;
+                          Wire.s_plen := pl; Wire.s_slen := sl |}.
+Definition m_unmarshal_session (b : list N) : option (list N) :=
+  match Wire.unmarshal_session b with
+  | Some m => Some [Wire.s_proto m; Wire.s_ts m; Wire.s_sid m; Wire.s_seq m; Wire.s_status m; Wire.s_plen m; Wire.s_slen m]
+  | None => None
+  end.
+Definition m_marshal_data (p mo ts sid seq un win fr pre pl sl ma el ro : N) : list N :=
+  Wire.marshal_data {| Wire.d_proto := p; Wire.d_mode := mo; Wire.d_ts := ts; Wire.d_sid := sid; Wire.d_seq := seq;
+                       Wire.d_unack := un; Wire.d_win := win; Wire.d_frag := fr; Wire.d_prefix := pre; Wire.d_plen := pl;
+                       Wire.d_slen := sl; Wire.d_mask := ma; Wire.d_elen := el; Wire.d_rot := ro |}.
 
 Extraction "model.ml"
   xb_zadd xb_zmul xb_zdiv xb_zmod xb_zopp xb_zltb xb_nadd xb_nmul xb_ndiv xb_nmod xb_z_of_n xb_n_of_z xb_n_of_nat xb_nat_of_n xb_keep
@@ -34,6 +52,9 @@ Extraction "model.ml"
   xl_protocol_isDataAckProtocol xl_protocol_isValidLowEntropyRotation xl_protocol_lowBits xl_protocol_rotateLowEntropyMask
   xl_protocol_buildLowEntropyParams xl_protocol_lowEntropyEncodedPayloadLen xl_protocol_maxFragmentSize
   xl_cipher_increaseNonce m_nonce_inc
+  xl_mathext_Mid_uint32 xl_mathext_WithinRange_uint32 xl_protocol_protocolType_Equals
+  xl_protocol_sessionStruct_Marshal xl_protocol_sessionStruct_Unmarshal xl_protocol_dataAckStruct_Marshal
+  m_mid3 m_within_range32 m_stamp m_marshal_session m_unmarshal_session m_marshal_data
   m_pdep_go m_pext_go m_repeat32 m_max_fragment_internal m_max_padding m_max_fragment m_le_encoded_len m_src_bytes m_mode_params
   m_valid_rotation m_lowbits m_rotate_mask m_is_le_proto
   m_wire_is_session m_wire_is_data m_wire_is_ack m_wire_is_data_ack m_wire_is_low_entropy.
